@@ -95,6 +95,10 @@ FIXTURES = (
     ("fx6_set_good", 4, None, 0, []),
     ("fx6_set_case_short", 4, None, 0, ["incomplete", "loop-progress"]),
     ("fx6_move_swapped", 1, "src", 0, ["cursors-out-of-step", "wrong-source-element"]),
+    ("fx6_set_index", 1, None, 0, []),
+    ("fx6_set_index_from1", 1, None, 0, ["gap-or-overlap", "incomplete"]),
+    ("fx6_move_nested", 2, "src", 0, []),
+    ("fx6_move_nested_gap", 2, "src", 0, ["incomplete", "loop-progress"]),
 )
 
 
